@@ -41,7 +41,8 @@ days = st.tuples(st.one_of(st.integers(rd.MAR1_ORD, rd.LAST_ORD), st.integers(rd
 datetimes = st.tuples(st.integers(rd.MAR1_ORD, 745000), st.integers(1, 86399999)).map(_dt)
 isotext = st.tuples(st.integers(rd.MAR1_ORD, 745000), st.sampled_from([None, ' ', 'T']), st.integers(0, 86399)).map(
     lambda t: datetime.date.fromordinal(t[0]).isoformat() + ('' if t[1] is None else '%s%02d:%02d:%02d' % (t[1], t[2] // 3600, t[2] // 60 % 60, t[2] % 60)))
-scalar_classes = {'int': ints, 'float': floats, 'logical': st.booleans(), 'blank': st.none(), 'numtext': numtext, 'badtext': badtext,
+derived = st.one_of(st.integers(-50, 50).map(lambda k: {'$': 'sub', 'v': ['int', k]}), st.integers(-200, 200).map(lambda k: {'$': 'sub', 'v': ['float', k / 8.0]}))      # host numbers of classes derived from int / float
+scalar_classes = {'int': st.one_of(ints, ints, ints, ints, derived), 'float': floats, 'logical': st.booleans(), 'blank': st.none(), 'numtext': numtext, 'badtext': badtext,
                   'date': days, 'datetime': datetimes, 'isotext': isotext}
 any_scalar = st.one_of(*scalar_classes.values())
 flat_arr = st.lists(st.one_of(ints, floats, ints, st.booleans(), st.none(), numtext, badtext, days), max_size=8)
@@ -269,7 +270,7 @@ def nontrivial(c):
     a, b = c['a'], c['b']
     if a[0] != b[0]:
         return True
-    return a[0] in ('float', 'datetime', 'flat', 'nested') or (a[0] == 'int' and (a[1] < 0 or b[1] < 0))
+    return a[0] in ('float', 'datetime', 'flat', 'nested') or (a[0] == 'int' and (isinstance(a[1], dict) or isinstance(b[1], dict) or a[1] < 0 or b[1] < 0))
 
 
 ALLK = sorted(scalar_classes) + ['flat', 'nested']
